@@ -158,6 +158,25 @@ fn parse_args(args: &[&str]) -> Result<ParsedInfo, Box<dyn Error>> {
     })
 }
 
+/// Whether `entry`, below the starting point `root`, is on another file system
+/// than `root` (compared like walkdir's same_file_system does).
+fn is_mount_point_below(root: &str, entry: &WalkEntry) -> bool {
+    #[cfg(unix)]
+    {
+        use std::os::unix::fs::MetadataExt;
+        if entry.depth() > 0 {
+            if let (Ok(root), Ok(entry)) =
+                (std::fs::metadata(root), std::fs::metadata(entry.path()))
+            {
+                return root.dev() != entry.dev();
+            }
+        }
+    }
+    #[cfg(not(unix))]
+    let _ = (root, entry);
+    false
+}
+
 fn process_dir(
     dir: &str,
     config: &Config,
@@ -221,7 +240,12 @@ fn process_dir(
                 // With -depth the directory's contents have already been
                 // visited, so -prune has no effect (skipping here would
                 // drop the parent's remaining entries instead).
-                if matcher_io.should_skip_current_dir() && !config.depth_first {
+                // Likewise for a directory on another file system under
+                // -xdev/-mount: walkdir yields it without entering it.
+                if matcher_io.should_skip_current_dir()
+                    && !config.depth_first
+                    && !(config.same_file_system && is_mount_point_below(dir, &entry))
+                {
                     it.skip_current_dir();
                 }
             }
